@@ -49,6 +49,7 @@ package containers
 //@   ensures [size] len(set.items) == old(len(set.items)) - ite(found, 1, 0)
 //@   ensures [remaining-were-there] forall k int {set.items[k]} :: 0 <= k && k < len(set.items) ==> (exists m int :: 0 <= m && m < old(len(set.items)) && set.items[k] == old(set.items[m]))
 //@   ensures [others-stay; using delete-kept, delete-shape] forall m int {old(set.items[m])} :: 0 <= m && m < old(len(set.items)) && old(set.items[m]) != item ==> has(set, old(set.items[m]))
+//@   ensures [others-stay-by-value; using delete-kept, delete-shape, index-found] forall x T :: x != item && old(has(set, x)) ==> has(set, x)
 //@   ensures [separate] set.items.blk != set.blk
 //@
 //@ func (*SliceSet[T]).Len
